@@ -59,7 +59,7 @@ claim('C10', 'per-configuration type check + configuration-independent body fing
       'Decides the structural part: all four feature combinations build; every body that differs between configurations lies inside '
       'util::strains_vec / util::sync (a cfg(feature)/cfg!(feature) elsewhere shows up as a differing fingerprint of the resolved '
       'program, not as a grep hit); guard discipline is identical and conflict-free under RefCell and RwLock; both push bodies normalise alike and record one '
-      'section per call; sum / iter / into_vec of both bodies traverse the whole list; nobody asks len()/iter() after a shrink that leaves the compact body\'s separate count stale (within a function, or across calls for a list kept in a field). The default-feature suite '
+      'section per call; sum / iter / into_vec / clone of both bodies traverse the whole list; nobody asks len()/iter() after a shrink that leaves the compact body\'s separate count stale (within a function, or across calls for a list kept in a field). The default-feature suite '
       'never compiles the other three configurations. Numerical equivalence of the two StrainsVec bodies is NOT decided.',
       'cargo +nightly check per configuration; fingerprint ignores local types and generic arguments by design', 'DESIGN.md §5 C10')
 claim('C11', 'unsafe-operation inventory from MIR with one obligation rule per kind: typestate dataflow, dominating-guard facts, who-may-write index, call-graph reachability, provenance',
@@ -77,12 +77,12 @@ claim('C03', 'provenance of the receiver chain in nth() and of the constructor a
 claim('C04', 'provenance of attribute sources, who-may-write on calculator attributes, pass-through check of 32 conversions',
       'Decides the flow clauses: Map-case attributes come from self.difficulty.calculate_for_mode::<own mode>(own map); the attributes embedded in a '
       'result are the unmodified calculator input and reach the calculator untouched; every attribute-to-builder conversion passes attrs / attrs.difficulty '
-      'through untouched and every map-to-builder conversion hands the map over as given (no conversion before the mods are known). '
-      'Numeric equality of the two paths is not decided.', 'exported MIR', 'DESIGN.md §5 C04')
+      'through untouched and every map-to-builder conversion hands the map over as given (no conversion before the mods are known); the map/attributes slot is never moved out with mem::take/replace/swap; '
+      'no difficulty entry point returns attributes that did not go through the calculation. Numeric equality of the two paths is not decided.', 'exported MIR', 'DESIGN.md §5 C04')
 claim('C06', 'call-graph-scoped decoder discipline: bounded-parse dominance, clamp provenance, tandem-sort pairing, who-may-write on control point vectors, panic-API reachability',
       'Decides the decoder discipline on every function reachable from the 11 parse_* methods and From<BeatmapState>: raw primitive parses are bound-tested '
-      'before use, the documented clamps are present on the produced fields, objects and sounds are permuted by one time-comparator sorter and pushed in '
-      'pairs, control point vectors change only through the binary-search add, no explicit panic API, entry points are pure delegations. '
+      'before use, the documented clamps are present on the produced fields and no clamp is fed by the NaN-tolerant parse without a NaN-excluding fact, objects and sounds are permuted by one time-comparator sorter and pushed in '
+      'pairs, control point vectors change only through the binary-search add, no explicit panic API, entry points are pure delegations (or the same decode over a reader built from the parameter alone). '
       'Arithmetic Assert terminators and rosu-map internals are not covered.',
       'rosu-map 0.2.1 line driver and ParseNumber trusted', 'DESIGN.md §5 C06')
 claim('C08', 'arm summaries of representation matches with identifiers resolved against rosu-mods\' own constant table; who-may-call / who-may-read',
@@ -107,7 +107,7 @@ claim('C16', 'evaluated associated constants at use sites (loop step of the sect
 claim('C17', 'provenance from builder output to calculator fields; setter/getter/output slot triangle by read-set of self fields',
       'Decides the flow clauses: build() embeds hit_windows(); calculators copy AR/HP/hit windows from the builder configured with the converted map and '
       'the Difficulty parameter; the builder\'s difficulty() takes every value from the same-named getter; each public setter feeds exactly the public '
-      'output of its name; HR/EZ-dependent scaling of a slot value happens only where that slot\'s with_mods() is known false. '
+      'output of its name; HR/EZ-dependent scaling of a slot value happens only where that slot\'s with_mods() is known false; no difficulty entry point returns attributes that skipped the calculation. '
       'Monotonicity / numeric round trip / HR-EZ ordering are not decided.', 'exported MIR', 'DESIGN.md §5 C17')
 claim('C18', 'struct-delta provenance of setters, arm summaries of 92 dispatch arms against tcx method tables, doc-table parsing, field-map comparison',
       'Decides: all 31 mode setters forward their own parameters to the same-named Difficulty setter; every Performance enum arm forwards per rename table or '
